@@ -15,6 +15,7 @@ mod pure;
 static GLOBAL: util::CountingAlloc = util::CountingAlloc;
 
 mod queue;
+mod once;
 mod regleak;
 mod tlsref;
 mod rc;
@@ -224,6 +225,11 @@ fn main() {
         "api" => {
             let (checks, _p, fails) = api::run(&out, seed, thorough);
             println!("api: property_checks={} property_failures={}", checks, fails);
+        }
+        "once" => {
+            let n: usize = arg(&args, "--cases").and_then(|s| s.parse().ok()).unwrap_or(0);
+            let (lines, checks, fails) = once::run(&out, seed, thorough, n);
+            println!("once: lines={} property_checks={} property_failures={}", lines, checks, fails);
         }
         "tls-ref" => {
             let (checks, _p, fails) = tlsref::run(&out, seed, thorough);
